@@ -31,6 +31,8 @@ ASSUMPTIONS = [
     'a calculation that stays a calculation may be partially simplified in any sound way; a calculation that does not depend on its '
     'free symbols may be emitted as a number',
     'an error for a well-typed tree counts as not emitting the calculation',
+    'clamp() whose lower bound exceeds its upper bound is not asserted (css-values says the lower bound wins, dart-sass returns the upper bound when the value exceeds both)',
+    'numerals inside an emitted calculation are taken to be rounded to 10 decimals: the comparison allows the propagated rounding error',
 ]
 
 PREC = 13
@@ -227,6 +229,8 @@ def evaluate(t, asg, eps=0.0):
             return max(vals), mag, err
         if len(vals) != 3:
             raise Skip('clamp arity')
+        if vals[0] > vals[2]:
+            raise Skip('clamp with min > max')        # css-values and dart-sass give different answers; not asserted
         return max(vals[0], min(vals[1], vals[2])), mag, err
     (a, ma, ea), (b, mb, eb) = evaluate(t[1], asg, eps), evaluate(t[2], asg, eps)
     if k == '+':
@@ -484,19 +488,27 @@ def family(t):
         n, x = 0, t
         while x[0] in ('paren', 'calc'):
             n, x = n + 1, x[1]
-        # the top-level calc( of the rendering is one more pair of parentheses
-        return '%sparenthesized-%s' % ('nested-' if n >= 2 else '', node_kind(x))
+        # (the top-level calc( of the rendering is one more pair of parentheses)
+        return 'nested-parentheses' if n >= 2 else 'parenthesized-' + node_kind(x)
     parts = [node_kind(strip(t[1])), node_kind(strip(t[2]))]          # left, right: which side it is matters
     return '%s(%s)' % (k, ','.join(parts))
 
 
 def signature(small, failure):
-    kinds = sorted(set(leaf_kind(l) for l in leaves(small)))
-    if 'ident' in kinds:
+    """failure class | construct at the root of the minimal failing tree | class of its operands (all from the source side)"""
+    fam = family(small)
+    cls, sub = classify(small)
+    if fam.startswith('identifier-'):
         # an identifier operand spoils the output in several ways (glued text, error); one class
         failure = 'error' if failure == 'error' else 'wrong-output'
-        kinds = ['ident']
-    return 'failure=%s|minimal=%s|operands=%s' % (failure, family(small), ','.join(kinds))
+        ops = 'identifier'
+    elif cls == 'numeric':
+        ops = 'numeric'
+    elif fam.startswith('fn-') or fam.startswith('nested-') or failure == 'garbled-output':
+        ops = 'symbolic'
+    else:
+        ops = sub
+    return 'failure=%s|minimal=%s|operands=%s' % (failure, fam, ops)
 
 
 def shrink_candidates(t):
@@ -668,6 +680,9 @@ def judge(ctx, case, st, text):
     v = judge_text(tree, aseed, st, text)
     ctx.seen('tree_class', '%s:%s' % (cls, sub))
     ctx.seen('top', tree[0] if tree[0] not in '+-*/' else 'calc')
+    ctx.seen('operator_count', count_ops(tree))
+    for n in [tree] + subtrees(tree):
+        ctx.seen('nodes', leaf_kind(n) if is_leaf(n) else n[0])
     if v is not None and v[0] == 'skip':
         if v[1].startswith('status-'):
             ctx.undecided(v[1])
@@ -682,7 +697,7 @@ def judge(ctx, case, st, text):
     v2 = judge_text(small, aseed, st2, text2) or v
     sig = signature(small, v[0])
     ctx.violation(sig, case, {'source': render(tree), 'observed': (text if st == 'ok' else st)[:300], 'failure': v[0], 'detail': v[1],
-                              'minimal_source': render(small), 'minimal_observed': (text2 if st2 == 'ok' else st2)[:300],
+                              'minimal_source': render(small), 'minimal_case': {'tree': small, 'aseed': aseed}, 'minimal_observed': (text2 if st2 == 'ok' else st2)[:300],
                               'minimal_detail': v2[1] if v2[0] != 'skip' else None})
     return True
 
